@@ -471,6 +471,30 @@ def search_case(rng):
     return {"init": init, "ops": ops, "src": "search"}
 
 
+def grow_shrink_case(rng):
+    """a list that grows well beyond a handful of items (from its literal or item by item) and is then taken apart from either
+    end: lengths 17..100, every removal observed (result, length, full contents)"""
+    n = rng.choice([17, 20, 24, 33, 40, 65, 100])
+    if rng.random() < 0.5:
+        init = [N(i + 1) for i in range(n)]
+        ops = []
+    else:
+        init = [N(0)] if rng.random() < 0.5 else []
+        ops = [{"op": "meth", "m": rng.choice(["后增", "后增", "后增", "前增"]), "args": [N(i + 1)]} for i in range(n)]
+    total = len(init) + len(ops)
+    for k in range(total + 2):
+        r = rng.random()
+        if r < 0.8:
+            ops.append({"op": "meth", "m": "右移", "args": []})
+        elif r < 0.9:
+            ops.append({"op": "meth", "m": "左移", "args": []})
+        elif r < 0.95:
+            ops.append({"op": "getp", "p": rng.choice(["长度", "末项", "首项"])})
+        else:
+            ops.append({"op": "meth", "m": "后增", "args": [N(500 + k)]})
+    return {"init": init, "ops": ops, "src": "grow-shrink"}
+
+
 def gen_key(rng):
     return rng.choice(KEYS[:5]) if rng.random() < 0.85 else rng.choice(KEYS)
 
@@ -946,6 +970,8 @@ def run(chk, replay=None):
         dicts.append(pools.dict_case(rng, rng.choice([3, 8, 15, 30, 60])))
     for _ in range(25 if quick else 300):
         lists.append(search_case(rng))
+    for _ in range(8 if quick else 80):
+        lists.append(grow_shrink_case(rng))
     run_histories(chk, "list", lists)
     run_histories(chk, "dict", dicts)
     # programs
